@@ -12,6 +12,7 @@ import (
 	"strconv"
 	"strings"
 	"sync"
+	"sync/atomic"
 	"time"
 
 	"github.com/jig/lisp"
@@ -110,7 +111,29 @@ func freshEnv(ec *evalCase) (EnvType, error) {
 	})
 	call.CallOverrideFN(e, "go-fail!", func() (MalType, error) { return nil, fmt.Errorf("builtin failed: %w", errSentinel) })
 	call.CallOverrideFN(e, "go-panic!", func() (MalType, error) { panic(fmt.Errorf("builtin panicked: %w", errSentinel)) })
+	// every other environment is followed by a second, unrelated one initialised AFTER it: an embedder may hold
+	// several environments, and nothing one of them does (eval, load-file, registrations) may depend on which
+	// environment of the process was initialised last
+	if err := maybeDecoy(); err != nil {
+		return nil, err
+	}
 	return e, nil
+}
+
+var freshEnvCount int64
+
+func maybeDecoy() error {
+	if atomic.AddInt64(&freshEnvCount, 1)%2 == 0 {
+		decoy := env.NewEnv()
+		if err := nscore.Load(decoy); err != nil {
+			return err
+		}
+		if err := nscore.LoadInput(decoy); err != nil {
+			return err
+		}
+		call.CallOverrideFN(decoy, "trace!", func(a MalType) (MalType, error) { return nil, fmt.Errorf("trace! of another environment") })
+	}
+	return nil
 }
 
 func renderErr(err error) string {
@@ -212,6 +235,7 @@ func runProgramIn(ast MalType, cancelAt int, script string, names []string, chil
 		}
 		defer func() { lisp.Stepper = nil }()
 	}
+	ast = viaReader(ast, e)
 	ec.base = evalFrames()
 	res, err := lisp.EVAL(ctx, ast, e)
 	lisp.Stepper = nil
@@ -268,6 +292,10 @@ func initPayload() string {
 // request payload: c=<n|-> s=<script|-> n=<names,|-> [e=child] | <ast>
 func evalPayloadChild(ast MalType) string {
 	return "c=- s=- n=- e=child | " + render(ast)
+}
+
+func evalPayloadChildC(ast MalType, cancelAt int) string {
+	return "c=" + strconv.Itoa(cancelAt) + " s=- n=- e=child | " + render(ast)
 }
 
 func evalPayload(cancelAt int, script string, names []string, ast MalType) string {
@@ -331,4 +359,38 @@ func (e *evalEngine) classify(payload, obs string) string {
 		return "err/" + f[1]
 	}
 	return f[0]
+}
+
+// viaReader: for every other case (chosen by a hash of the program, so a replay takes the same route) the
+// program is printed and read back by the REAL reader before it is evaluated, so that the AST handed to EVAL
+// is built by the code's own constructors (NewHashMap, NewSet, read_list with cursors, …) and not by the
+// harness' struct literals.  Programs whose text does not read back to the same canonical term (strings the
+// printer/reader pair does not round-trip — known findings of C06 —, placeholder-like symbols) keep the
+// harness-built AST.
+func viaReader(ast MalType, e EnvType) MalType {
+	canon := render(ast)
+	h := uint32(2166136261)
+	for i := 0; i < len(canon); i++ {
+		h = (h ^ uint32(canon[i])) * 16777619
+	}
+	if h&1 == 0 {
+		return ast
+	}
+	var out MalType
+	func() {
+		defer func() {
+			if recover() != nil {
+				out = nil
+			}
+		}()
+		text := lisp.PRINT(ast)
+		a2, err := lisp.READ(text, nil, e)
+		if err == nil && render(a2) == canon {
+			out = a2
+		}
+	}()
+	if out == nil {
+		return ast
+	}
+	return out
 }
